@@ -21,6 +21,7 @@ import CaddyModel.C04.Refine
 import CaddyModel.C04.Values
 import CaddyModel.C04.NoPanic
 import CaddyModel.C04.Witness
+import CaddyModel.C04.Clients
 
 namespace CaddyModel.C04
 
@@ -426,5 +427,89 @@ example : (runSched 1 [[.ln 0 true, .cdel 0], [.ln 0 true, .cdel 0], [.refs 0]] 
 example : (runSched 1 [[.ln 0 false], [.ls 0, .cdel 0], [.ln 0 true]] [0, 1, 0, 0, 1]).clean = true := by decide
 example : (runSched 1 [[.ln 0 true], [.del 0]] [0, 0, 1]).clean = false := by decide
 
+
+/-! ### clients: what a config, a handler, a listener wrapper can rely on
+
+A client of a pool (a `Logging` with its `writerKeys`, a reverse-proxy `Handler` with its provisioned
+`Upstreams`, a `deleteListener`) is a named thread of the executable model: it remembers what it
+acquired (`Thread.held`) and releases exactly that.  `holders` — the ghost counter all theorems
+above speak about — IS that bookkeeping (`books_runSched`, any programs, any schedule, no
+hypothesis), so the theorems become statements about clients. -/
+
+/-- **the ghost counter is the clients' bookkeeping**: in every state the driver can reach,
+    `holders e` = number of `(key, e)` references the threads remember -/
+theorem holders_eq_client_books (nk : Nat) (progs : List (List Op)) (sched : List Nat) (e : Nat)
+    (he : e < (runSched nk progs sched).g.next) :
+    ((runSched nk progs sched).g.ent e).holders = holdCount (runSched nk progs sched).threads e :=
+  (books_runSched nk progs sched).count e he
+
+/-- **a client that still remembers a reference has a live value**: the entry is the one in the
+    map, it has a value, its destructor has not run and no Delete is on its way to run it -/
+theorem client_holds_live_value (nk : Nat) (progs : List (List Op)) (sched : List Nat)
+    (hc : (runSched nk progs sched).clean = true) {th : Thread} (hth : th ∈ (runSched nk progs sched).threads)
+    {k e : Nat} (hx : (k, e) ∈ th.held) :
+    e < (runSched nk progs sched).g.next ∧ inPool (runSched nk progs sched).g e = true
+      ∧ ((runSched nk progs sched).g.ent e).value.isSome = true
+      ∧ ((runSched nk progs sched).g.ent e).destructed = 0
+      ∧ ((runSched nk progs sched).g.ent e).del2 = 0 ∧ ((runSched nk progs sched).g.ent e).del3 = 0 := by
+  have hb := books_runSched nk progs sched
+  have hr := runSched_reachable nk progs sched hc
+  have he : e < (runSched nk progs sched).g.next := hb.ok th hth (k, e) hx
+  have h1 : 0 < heldOf e th := by
+    unfold heldOf
+    exact List.countP_pos_iff.mpr ⟨(k, e), hx, by simp⟩
+  have h2 : heldOf e th ≤ holdCount (runSched nk progs sched).threads e := heldOf_le_holdCount e hth
+  have hh : 0 < ((runSched nk progs sched).g.ent e).holders := by rw [hb.count e he]; omega
+  obtain ⟨hd, h2', h3, hm, hv, _⟩ := not_destructed_before_own_release hr he hh
+  exact ⟨he, hm, hv, hd, h2', h3⟩
+
+/-- **a value is closed iff no client holds it** (when no call is in flight on its entry): its
+    destructor has run — exactly once — if and only if no thread remembers a reference to it;
+    and then the entry is no longer in the map -/
+theorem closed_iff_no_client_holds (nk : Nat) (progs : List (List Op)) (sched : List Nat)
+    (hc : (runSched nk progs sched).clean = true) {e : Nat} (he : e < (runSched nk progs sched).g.next)
+    (hv : ((runSched nk progs sched).g.ent e).value.isSome = true)
+    (hq : quietEntry ((runSched nk progs sched).g.ent e)) :
+    (((runSched nk progs sched).g.ent e).destructed = 1 ↔ holdCount (runSched nk progs sched).threads e = 0)
+    ∧ (holdCount (runSched nk progs sched).threads e = 0 → inPool (runSched nk progs sched).g e = false) := by
+  have hb := books_runSched nk progs sched
+  have hi := inv_reachable (runSched_reachable nk progs sched hc)
+  rw [← hb.count e he]
+  exact ent_closed_iff_unheld (hi.ent e he) hv hq
+
+/-- **when every client has released everything and every call has returned, the pool is empty
+    and every value has been destructed exactly once** -/
+theorem all_clients_released_pool_empty (nk : Nat) (progs : List (List Op)) (sched : List Nat)
+    (hc : (runSched nk progs sched).clean = true)
+    (hall : ∀ th ∈ (runSched nk progs sched).threads, th.held = [])
+    (hq : ∀ e, e < (runSched nk progs sched).g.next → quietEntry ((runSched nk progs sched).g.ent e)) :
+    (∀ k, (runSched nk progs sched).g.pool k = none)
+    ∧ ∀ e, e < (runSched nk progs sched).g.next → ((runSched nk progs sched).g.ent e).value.isSome = true →
+        ((runSched nk progs sched).g.ent e).destructed = 1 := by
+  have hb := books_runSched nk progs sched
+  have hi := inv_reachable (runSched_reachable nk progs sched hc)
+  have hzero : ∀ e, holdCount (runSched nk progs sched).threads e = 0 :=
+    fun e => holdCount_of_nothing_held e hall
+  constructor
+  · intro k
+    cases hp : (runSched nk progs sched).g.pool k with
+    | none => rfl
+    | some e =>
+      obtain ⟨he, _⟩ := hi.pool k e hp
+      have hh : ((runSched nk progs sched).g.ent e).holders = 0 := by rw [hb.count e he]; exact hzero e
+      have := ent_quiet_unheld_unmapped (hi.ent e he) (hq e he) hh
+      rw [inPool_of_pool hi hp] at this
+      cases this
+  · intro e he hv
+    have hh : ((runSched nk progs sched).g.ent e).holders = 0 := by rw [hb.count e he]; exact hzero e
+    exact ((ent_closed_iff_unheld (hi.ent e he) hv (hq e he)).1).mpr hh
+
+-- non-vacuity: two configs share a writer; after the first closed its logs the second still holds a live
+-- value; after both did, the pool is empty and the value destructed once
+example : let y := runSched 1 [[.ln 0 true, .cdel 0], [.ln 0 true]] [0, 0, 1, 1, 0]
+    (y.clean, y.threads.map (·.held), (y.g.ent 0).destructed, holdCount y.threads 0) = (true, [[], [(0, 0)]], 0, 1) := by
+  decide
+example : let y := runSched 1 [[.ln 0 true, .cdel 0], [.ln 0 true, .cdel 0]] []
+    (y.clean, y.threads.map (·.held), y.g.pool 0, (y.g.ent 0).destructed) = (true, [[], []], none, 1) := by decide
 
 end CaddyModel.C04
